@@ -20,7 +20,15 @@ func GoEnv() []string {
 	return env
 }
 
-const RepoDir = "/repo"
+// RepoDir is the tree every check builds from: /repo. (VCHECK_REPO lets the seeded-change
+// tooling point a run at a scratch worktree so that several changes can be tried in
+// parallel; no registered command sets it.)
+var RepoDir = func() string {
+	if d := os.Getenv("VCHECK_REPO"); d != "" {
+		return d
+	}
+	return "/repo"
+}()
 
 // BuildProxy builds /repo's current working tree with -tags verif into dir.
 // mode is "", "race" or "asan".
